@@ -1,7 +1,7 @@
 CONSTANTS
-  Keys = {2, 4, 6}
+  Keys = {2, 4}
   Vals = {1, 2}
-  Borders = {1, 2, 3, 4, 5, 6, 7}
+  Borders = {1, 2, 3, 4, 5}
   MaxOps = 4
   MaxBatch = 2
   ExportOn = TRUE
